@@ -64,9 +64,10 @@ Section Inv.
   Inductive phase := PIdle | PConv (a i p n : nat) | PStored (a i p n : nat).
 
   (** what a thread knows: its expand phase, the prefix of one linked array, the key of one item it saw in a slot
-      ([kit] = 0: nothing), and the key of the item it created itself ([kid] = 0: none) *)
-  Record L := mkL { ph : phase; ka : nat; ko : nat; kpre : N; kit : nat; kkey : nat; kid : nat; kidk : nat }.
-  Definition set_ph (l : L) (x : phase) : L := mkL x (ka l) (ko l) (kpre l) (kit l) (kkey l) (kid l) (kidk l).
+      ([kit] = 0: nothing), the key of the item it created itself ([kid] = 0: none), and the prefixes of further linked
+      arrays ([kstk]: the array nodes on the descent stack of an iterator, LV.Model.FeldmanIter; unused by the set operations) *)
+  Record L := mkL { ph : phase; ka : nat; ko : nat; kpre : N; kit : nat; kkey : nat; kid : nat; kidk : nat; kstk : list (nat * (nat * N)) }.
+  Definition set_ph (l : L) (x : phase) : L := mkL x (ka l) (ko l) (kpre l) (kit l) (kkey l) (kid l) (kidk l) (kstk l).
 
   Record Aux := mkAux { pfx : nat -> option (nat * N); views : nat -> L }.
 
@@ -102,7 +103,8 @@ Section Inv.
     i_unlinked : forall n, pfx A n = None -> (forall t a i p, ~ pending (views A t) a i p n) -> forall j, arr g n j = snull;
     i_known : forall t, pfx A (ka (views A t)) = Some (ko (views A t), kpre (views A t));
     i_items : forall t, (kit (views A t) <> 0 -> kit (views A t) <= nitem g /\ ikey g (kit (views A t)) = kkey (views A t)) /\
-                        (kid (views A t) <> 0 -> kid (views A t) <= nitem g /\ ikey g (kid (views A t)) = kidk (views A t))
+                        (kid (views A t) <> 0 -> kid (views A t) <= nitem g /\ ikey g (kid (views A t)) = kidk (views A t));
+    i_stk : forall t n x, In (n, x) (kstk (views A t)) -> pfx A n = Some x
   }.
 
   (** ** updating ghost state *)
@@ -174,7 +176,7 @@ Section Inv.
   Qed.
 
   (** changing only what a thread knows (which linked array it is looking at) *)
-  Definition know (l : L) (a o : nat) (pre : N) : L := mkL (ph l) a o pre (kit l) (kkey l) (kid l) (kidk l).
+  Definition know (l : L) (a o : nat) (pre : N) : L := mkL (ph l) a o pre (kit l) (kkey l) (kid l) (kidk l) (kstk l).
 
   Lemma pending_know l a o pre a' i p n : pending (know l a o pre) a' i p n <-> pending l a' i p n.
   Proof. unfold pending, know; cbn. tauto. Qed.
@@ -196,6 +198,7 @@ Section Inv.
       cbn. destruct (Nat.eqb_spec u t) as [->|]; [apply pending_know|]; exact Hpd.
     - intros u. cbn. destruct (Nat.eqb_spec u t) as [->|]; [cbn; exact Hp|apply i_known0].
     - intros u. cbn. destruct (Nat.eqb_spec u t) as [->|]; [cbn|]; apply i_items0.
+    - intros u m x Hm. cbn in Hm. destruct (Nat.eqb_spec u t) as [->|]; [cbn in Hm|]; eapply i_stk0; exact Hm.
   Qed.
 
   (** a CAS that changes a data slot of a linked array: insert (null -> q), replace (p -> q, same hash), erase (p -> null) *)
@@ -299,6 +302,7 @@ Section Inv.
       apply (Hnp u a1 i1 p1). unfold A'; cbn. destruct (Nat.eqb_spec u t); [congruence|exact Hpd].
     - intros u. unfold A'; cbn. destruct (Nat.eqb_spec u t) as [->|]; [cbn|]; apply i_known0.
     - intros u. unfold A'; cbn [views set_view set_pfx]. destruct (Nat.eqb_spec u t) as [->|]; [cbn|]; apply i_items0.
+    - intros u m x Hm. unfold A' in Hm; cbn in Hm. destruct (Nat.eqb_spec u t) as [->|]; [cbn in Hm|]; eapply i_stk0; exact Hm.
   Qed.
 
   (** the store of the moved item into the pending array node *)
@@ -358,6 +362,7 @@ Section Inv.
       + apply (Hnp u a1 i1 p1). unfold A'; cbn. destruct (Nat.eqb_spec u t); [congruence|exact Hpd].
     - intros u. unfold A'; cbn. destruct (Nat.eqb_spec u t) as [->|]; [cbn|]; apply i_known0.
     - intros u. unfold A'; cbn [views set_view set_pfx]. destruct (Nat.eqb_spec u t) as [->|]; [cbn|]; apply i_items0.
+    - intros u m x Hm. unfold A' in Hm; cbn in Hm. destruct (Nat.eqb_spec u t) as [->|]; [cbn in Hm|]; eapply i_stk0; exact Hm.
   Qed.
 
   (** the second CAS of expand_slot: converting -> array node; the pending node becomes linked *)
@@ -466,18 +471,21 @@ Section Inv.
       + apply PFXs. exact (i_known0 t).
       + apply PFXs. exact K.
     - intros u. unfold A'; cbn [views set_view set_pfx]. destruct (Nat.eqb_spec u t) as [->|]; [cbn|]; apply i_items0.
+    - intros u m x Hm. apply PFXs. unfold A' in Hm; cbn in Hm. destruct (Nat.eqb_spec u t) as [->|]; [cbn in Hm|]; eapply i_stk0; exact Hm.
   Qed.
 
   (** remembering the key of an item seen in a slot of a linked array / of the item the thread created *)
-  Definition know_item (l : L) (p k : nat) : L := mkL (ph l) (ka l) (ko l) (kpre l) p k (kid l) (kidk l).
-  Definition know_id (l : L) (p k : nat) : L := mkL (ph l) (ka l) (ko l) (kpre l) (kit l) (kkey l) p k.
+  Definition know_item (l : L) (p k : nat) : L := mkL (ph l) (ka l) (ko l) (kpre l) p k (kid l) (kidk l) (kstk l).
+  Definition know_id (l : L) (p k : nat) : L := mkL (ph l) (ka l) (ko l) (kpre l) (kit l) (kkey l) p k (kstk l).
+  Definition push_stk (l : L) (n : nat) (x : nat * N) : L := mkL (ph l) (ka l) (ko l) (kpre l) (kit l) (kkey l) (kid l) (kidk l) ((n, x) :: kstk l).
 
-  Lemma Inv_view_fields g A tr t l :
+  Lemma Inv_view_gen g A tr t l :
     Inv g A tr -> ph l = ph (views A t) -> ka l = ka (views A t) -> ko l = ko (views A t) -> kpre l = kpre (views A t) ->
+    (forall n x, In (n, x) (kstk l) -> pfx A n = Some x) ->
     ((kit l <> 0 -> kit l <= nitem g /\ ikey g (kit l) = kkey l) /\ (kid l <> 0 -> kid l <= nitem g /\ ikey g (kid l) = kidk l)) ->
     Inv g (set_view A t l) tr.
   Proof.
-    intros I E1 E2 E3 E4 Hit. destruct I.
+    intros I E1 E2 E3 E4 E5 Hit. destruct I.
     assert (PV : forall u a' i p n, pending (views (set_view A t l) u) a' i p n <-> pending (views A u) a' i p n).
     { intros u a' i p n. cbn. destruct (Nat.eqb_spec u t) as [->|]; [unfold pending; rewrite E1|]; tauto. }
     assert (PH : forall u, ph (views (set_view A t l) u) = ph (views A u)).
@@ -490,5 +498,24 @@ Section Inv.
     - intros n Hn Hnp. apply i_unlinked0; [exact Hn|]. intros u a' i p Hpd. apply (Hnp u a' i p). apply PV. exact Hpd.
     - intros u. cbn. destruct (Nat.eqb_spec u t) as [->|]; [rewrite E2, E3, E4|]; apply i_known0.
     - intros u. cbn. destruct (Nat.eqb_spec u t) as [->|]; [exact Hit|apply i_items0].
+    - intros u m x Hm. cbn in Hm. destruct (Nat.eqb_spec u t) as [->|]; [apply E5; exact Hm|eapply i_stk0; exact Hm].
+  Qed.
+
+  Lemma Inv_view_fields g A tr t l :
+    Inv g A tr -> ph l = ph (views A t) -> ka l = ka (views A t) -> ko l = ko (views A t) -> kpre l = kpre (views A t) ->
+    kstk l = kstk (views A t) ->
+    ((kit l <> 0 -> kit l <= nitem g /\ ikey g (kit l) = kkey l) /\ (kid l <> 0 -> kid l <= nitem g /\ ikey g (kid l) = kidk l)) ->
+    Inv g (set_view A t l) tr.
+  Proof.
+    intros I E1 E2 E3 E4 E5 Hit. apply Inv_view_gen; auto. intros n x Hn. rewrite E5 in Hn. eapply (i_stk I); exact Hn.
+  Qed.
+
+  (** an iterator remembers one more linked array node *)
+  Lemma Inv_push g A tr t n x :
+    Inv g A tr -> pfx A n = Some x -> Inv g (set_view A t (push_stk (views A t) n x)) tr.
+  Proof.
+    intros I Hp. apply Inv_view_gen; auto; try reflexivity.
+    - intros m y [E|Hm]; [inversion E; subst; exact Hp|eapply (i_stk I); exact Hm].
+    - apply (i_items I).
   Qed.
 End Inv.
